@@ -30,7 +30,7 @@ From DV Require Import Model.PyPrims Model.Tree Model.Heap Model.HeapOps Model.C
   Proofs.C03Reseed Proofs.C03Order Proofs.C03Ops Proofs.C03SpecLinks Proofs.C03Ops2 Proofs.C03Unweighted
   Proofs.C03PruneLoops Proofs.C03Hist Proofs.C03Thms Proofs.C03More Proofs.C03More2 Proofs.C03More3
   Proofs.C03SetKids Proofs.C03RemoveSu Proofs.C03Resolve Proofs.C03Midpoint Proofs.C03Hist2 Proofs.C03Thms2
-  Proofs.C03Trav Proofs.C03PruneSpec Proofs.C03Bip.
+  Proofs.C03Trav Proofs.C03PruneSpec Proofs.C03Bip Proofs.C03Variants.
 From DV Require Import Model.C03Bip.
 Import ListNotations.
 Open Scope Z_scope.
@@ -156,6 +156,20 @@ Theorem history_wf : forall ops h,
   WF h -> valid_hist2 ops h -> exists h', run_hist ops h = Some h' /\ WF h'.
 Proof. exact history_wf2_l. Qed.
 Print Assumptions history_wf.
+
+(* the same for both forms (v) of the two sites repaired in the library: the seed guard of the
+   pruning loops (SeedNodeDeletionException instead of AttributeError) and prune_nodes honouring
+   suppress_unifurcations / update_bipartitions; the harness probes which form the library has *)
+Theorem op_wf_variants : forall v h o,
+  WF h -> covered2 h o ->
+  exists h', WF h' /\ (run_op_v v o h = HOk h' \/ exists e, run_op_v v o h = HErr e h').
+Proof. exact op_wf_variants_l. Qed.
+Print Assumptions op_wf_variants.
+
+Theorem history_wf_variants : forall v ops h,
+  WF h -> valid_hist_v v ops h -> exists h', run_hist_v v ops h = Some h' /\ WF h'.
+Proof. exact history_wf_variants_l. Qed.
+Print Assumptions history_wf_variants.
 
 (* the two argument classes excluded for to_outgroup_position(suppress_unifurcations=True) are real
    failures of the transcribed code (and of the library: known findings) *)
